@@ -65,6 +65,13 @@ Theorem C11_attribute_roundtrip : forall x, wf_attribute x = true ->
 Proof. exact attribute_roundtrip. Qed.
 Print Assumptions C11_attribute_roundtrip.
 
+(* ... for both variants of the version 2 padding switch of the reader (Model/CodecAttr.v attribute_v2_unpadded: the code
+   before / after notes/fixes/c06-attribute-v2-padding.patch; dec_attribute is the repaired variant) *)
+Theorem C11_attribute_roundtrip_both_variants : forall rep x, wf_attribute x = true ->
+  dec_attribute_gen rep false (enc_attribute x) = Ok (proj_attribute x).
+Proof. exact attribute_roundtrip_gen. Qed.
+Print Assumptions C11_attribute_roundtrip_both_variants.
+
 Theorem C11_attribute_len : forall x, wf_attribute x = true -> blen (enc_attribute x) = size_attribute x.
 Proof. exact attribute_blen. Qed.
 Print Assumptions C11_attribute_len.
@@ -76,6 +83,13 @@ Theorem C11_superblock_roundtrip : forall x, wf_superblock x = true ->
   dec_superblock (enc_superblock x) = Ok (proj_superblock x).
 Proof. exact superblock_roundtrip. Qed.
 Print Assumptions C11_superblock_roundtrip.
+
+(* ... for both variants of the superblock sizes switch of the reader (Model/CodecSuper.v superblock_sizes_repaired: the code
+   before / after notes/fixes/c06-superblock-sizes.patch; dec_superblock is the repaired variant) *)
+Theorem C11_superblock_roundtrip_both_variants : forall rep x, wf_superblock x = true ->
+  dec_superblock_gen rep (enc_superblock x) = Ok (proj_superblock x).
+Proof. exact superblock_roundtrip_gen. Qed.
+Print Assumptions C11_superblock_roundtrip_both_variants.
 
 Theorem C11_superblock_len : forall x, blen (enc_superblock x) = size_superblock x.
 Proof. exact superblock_blen. Qed.
